@@ -461,3 +461,37 @@ def C18(tier, seed):
            "HLL image size is also checked after every single update of the C02 workloads (ObsOK len = SerLen)"],
           rule="size-record: HLL lg_k {4,7,8,10,12,(14)} x 3 types x 3 stream shapes, theta lg_k {5,8,12} with trims, CPC lg_k {4,8,10,11,12} x shapes x repeats, "
                "frequent items maps {8,64,1024}, Bloom, Count-Min, t-digest k {10,100,500}; plus the per-update size conjuncts of the family traces")
+
+
+# --------------------------------------------------------------------------- C14
+def C14(tier, seed):
+    t0 = time.time()
+    clean("C14")
+    vhbin = build_harness()
+    scripts = work("C14", "scripts.json")
+    g = tlc_gen("Gen_Mutations", "Gen_Mutations.cfg", scripts)
+    rec = vh(vhbin, "c14-record", {"scripts": scripts, "out": work("C14", "c14"), "seed": seed, "tier": tier}, timeout=7200)
+    paths = [work("C14", "c14.%d.ndjson" % i) for i in range(2)]
+    cfg = trace_cfg("C14", "Malformed", "CONSTANTS ", ["C14"])
+    ev, rej, st = validate_shards("Trace_Malformed", cfg, paths, jobs=2)
+    viol, hits = classify("C14", rej, "Trace_Malformed", cfg)
+    samples = []
+    for pth in paths:
+        for line in open(pth):
+            e = json.loads(line)
+            if e.get("op") in ("MBatch", "MBad") and len(samples) < 6:
+                samples.append(e)
+    cov = {"evaluations": rec["cases"], "distinct_nontrivial": rec["cases"],
+           "rule": "corpus of %d valid images (every family, variant and mode) x %d TLC-generated mutation scripts (boundary values in every "
+                   "preamble byte / 16 / 32 / 64-bit field, pairs of byte overwrites, bit flips, truncation at every offset <= 200, extension, payload "
+                   "flips; quick tier: a 20%% seeded sample per image and entry point) + every intact image to every entry point + %d random byte "
+                   "strings; each case is one (image bytes, entry point) pair that differs from the valid image, run in a worker process with a "
+                   "counting allocator (budget 16 MiB + 64 bytes per input byte per single allocation; requests above 64 MiB are refused); Ok values "
+                   "are queried, updated, merged and re-serialized" % (rec["corpus"], rec["scripts"], rec["random"]),
+           "samples": samples, "generator": g, "bad_classes_seen": rec["bad_classes"],
+           "states": g["states"] + st, "transitions": g["transitions"] + ev, "traces_validated_against_impl": rec["runs"] - len(rej)}
+    finish("C14", tier, seed, "exploration", cov, t0, viol,
+           ["Ok versus Err is never asserted; a verdict other than Ok/Err (panic with location, abort, allocation above budget, > 2 s) is a violation",
+            "an empty image of a huge configuration (Count-Min num_buckets x num_hashes, Bloom num_longs, CPC lg_k 26, frequent-items map sizes) "
+            "legitimately implies a configuration-sized object in the other libraries too; these are listed as known findings, not silently allowed",
+            "hangs are not detected other than by the driver's timeout (tool error)"], hits)
